@@ -220,8 +220,25 @@ def make_handler():
             self.Tags = []
             self.Q = -1
 
+    class Derived(Obj):
+        # a subclass adding an interface of its own: its objects have the base interfaces and this one
+        iface3 = interface.DBusInterface('org.example.V', interface.Method('K'), interface.Property('R', 's'))
+        dbusInterfaces = [iface3]
+        R = objects.DBusProperty('R', 'org.example.V')
+
+        def __init__(self, path):
+            Obj.__init__(self, path)
+            self.R = 'derived'
+
     c = Conn()
-    return objects.DBusObjectHandler(c), c, Obj
+    return objects.DBusObjectHandler(c), c, (Obj, Derived)
+
+
+def want_ifs_of(o):
+    w = {'org.example.T': {'P': 'value', 'Count': 0, 'Enabled': False, 'Label': '', 'Tags': []}, 'org.example.U': {'Q': -1}}
+    if type(o).__name__ == 'Derived':
+        w['org.example.V'] = {'R': 'derived'}
+    return w
 
 
 def query_all(h, conn, exported):
@@ -246,7 +263,7 @@ def query_all(h, conn, exported):
             if got != want:
                 return 'GetManagedObjects(%s) lists %r, expected %r' % (q, got, want)
             for p, ifs in r.body[0].items():
-                want_ifs = {'org.example.T': {'P': 'value', 'Count': 0, 'Enabled': False, 'Label': '', 'Tags': []}, 'org.example.U': {'Q': -1}}
+                want_ifs = want_ifs_of(exported[p])
                 got_ifs = {k: v for k, v in ifs.items() if k.startswith('org.example.')}
                 if got_ifs != want_ifs:
                     return 'GetManagedObjects(%s): object %s reported with %r, its interfaces and readable properties are %r' % (q, p, ifs, want_ifs)
@@ -270,8 +287,8 @@ def query_all(h, conn, exported):
 
 
 def run_history(ops):
-    h, conn, Obj = make_handler()
-    exported = set()
+    h, conn, classes_ = make_handler()
+    exported = {}            # path -> the object exported there
     instances = {}           # the same Python object is exported again after an unexport (every second time), as applications do
     for step, (op, p) in enumerate(ops):
         conn.sent.clear()
@@ -280,20 +297,25 @@ def run_history(ops):
                 if p in instances and step % 2 == 0:
                     o = instances[p]
                 else:
-                    o = instances[p] = Obj(p)
+                    # objects of the base class and of a derived class adding an interface, in either order
+                    o = instances[p] = classes_[(len(p) + step + len(ops)) % 2](p)
                 h.exportObject(o)
-                exported.add(p)
+                exported[p] = o
                 kind = 'InterfacesAdded'
             else:
                 if p not in exported:
                     continue
+                o = exported.pop(p)
                 h.unexportObject(p)
-                exported.discard(p)
                 kind = 'InterfacesRemoved'
         except Exception as e:
             return 'step %d %s(%s) raised %s: %s' % (step, op, p, type(e).__name__, e)
         if len(conn.sent) != 1 or conn.sent[0].member != kind or conn.sent[0].path != p or conn.sent[0].body[0] != p:
             return 'step %d %s(%s): announcement %r' % (step, op, p, [(m.member, m.path) for m in conn.sent])
+        named = set(conn.sent[0].body[1].keys() if kind == 'InterfacesAdded' else conn.sent[0].body[1])
+        if {n for n in named if n.startswith('org.example.')} != set(want_ifs_of(o)):
+            return 'step %d %s(%s) of a %s object: the announcement names the interfaces %r, the object has %r' % (
+                step, op, p, type(o).__name__, sorted(named), sorted(want_ifs_of(o)))
         f = query_all(h, conn, exported)
         if f:
             return 'after step %d %s(%s) with exports %r: %s' % (step, op, p, sorted(exported), f)
